@@ -56,6 +56,35 @@ def isolate(b, mi, tree, pred):
     return out
 
 
+def isolate_deep(b, mi, tree, pred, depth=0):
+    """like isolate(), but descends into message-valued fields so that the carrier reported is
+    the innermost field whose one-field projection (wrapped in its ancestors) still fails"""
+    out = []
+    for fi, v in isolate(b, mi, tree, pred):
+        inner = fi.map_value if fi.label == "map" else fi
+        if depth < 4 and isinstance(v, dict) and inner.kind == "message" and inner.wkt is None and v:
+            sub_mi = b.msgs[inner.type_name]
+
+            def wrap(sub_t, fi=fi):
+                if fi.label == "repeated":
+                    return {fi.number: [sub_t]}
+                if fi.label == "map":
+                    k = next(iter(tree[fi.number]))
+                    return {fi.number: {k: sub_t}}
+                return {fi.number: sub_t}
+
+            if not _safe(pred, wrap({})):
+                out.append((fi, v))  # fails even with an empty sub-message: the container is the carrier
+                continue
+            deeper = isolate_deep(b, sub_mi, v, lambda st: pred(wrap(st)), depth + 1)
+            deeper = [(f2, v2) for f2, v2 in deeper if f2 is not None]
+            if deeper:
+                out.extend(deeper)
+                continue
+        out.append((fi, v))
+    return out
+
+
 def _safe(pred, t):
     try:
         return pred(t)
